@@ -119,10 +119,20 @@ CHECKS['C07'] = dict(
          'covered by a bounded differential on corpus neighbours; Bitcoin is bounded only. The specs share compact(), registries, country lists and '
          'the ISO 7064 algorithms (C06) with the library. Whether the transcription is the right reading of a standard is outside any tool.',
     technique='relational symbolic execution of code and spec function, z3')
+CHECKS['C08'] = dict(
+    category='proof', design_ref='DESIGN.md §C08',
+    text='A catalogue of the converters of the library (to_isin, to_iban, to_isbn13/10, to_ean, to_vat, to_base10/32, ... discovered from the '
+         'AST and listed with their target module, embedding relation and inverse). On every accepting path of the source validate() the converter '
+         'is executed symbolically; the target validate() must accept its result on every path, the result must embed the source number as the '
+         'catalogue states, and the inverse converter (where one exists) must give the source number back.',
+    note='Converters whose joint exploration exceeds the budget (SEDOL/WKN/CUSIP to_isin through the ISIN letter expansion, it.aic base-32, the '
+         'ISBN inverse across lengths) are undecided and covered by a bounded native run over the corpus, synthesised valid numbers and separated '
+         'presentations. ' + _VF_NOTE,
+    technique='symbolic closures (converter, target validate, inverse) under each accepting path condition, z3')
 CHECKS['C12'] = dict(
     category='proof', design_ref='DESIGN.md §C12',
     text='Every getter discovered mechanically is executed symbolically on the value of every accepting path of validate(), with a universally '
-         'quantified system date: it returns or raises a ValidationError; a returned date agrees with get_birth_year/month and, for ten formats '
+         'quantified system date: it returns or raises a ValidationError; a returned date agrees with get_birth_year/month and, for eighteen formats '
          'with an unambiguous layout (contracts/birthdates.py), with the date digits and century marker of the number; gender is M/F; split() '
          'parts concatenate to the number.',
     note='Getters that look up large registries are undecided (contract needed) and covered by the corpus run only. ' + _VF_NOTE,
